@@ -1,16 +1,19 @@
 #!/bin/bash
 # Runs seeded changes under /verif/seeded against the quick check of their own property
 # (plus extra checks given as "id:Cxx,Cyy" in tools/mutant_extra.txt). One line per (mutant, check).
-# usage: mutant_matrix.sh <tier> <outfile> [id-glob]
+# usage: mutant_matrix.sh <tier> <outfile> [id-glob] [parallel]
 tier=${1:-quick}
 out=${2:-/tmp/mutant-matrix.txt}
 glob=${3:-*}
+par=${4:-3}
 : > $out
-for d in /verif/seeded/$glob; do
-  [ -f $d/patch.diff ] || continue
+run_one() {
+  d=$1; tier=$2
   id=$(basename $d)
   prop=$(echo $id | grep -o 'C[0-9][0-9]' | head -1)
   extra=$(grep "^$id:" /verif/tools/mutant_extra.txt 2>/dev/null | cut -d: -f2 | tr ',' ' ')
-  /verif/tools/run_mutant.sh $d $tier $prop $extra >> $out 2>&1
-done
+  /verif/tools/run_mutant.sh $d $tier $prop $extra
+}
+export -f run_one
+ls -d /verif/seeded/$glob | while read d; do [ -f $d/patch.diff ] && echo $d; done | xargs -P $par -I{} bash -c "run_one {} $tier" >> $out 2>&1
 echo done >> $out
